@@ -986,3 +986,209 @@ Definition ledger_observe (scopes : list scope) (closures : list nat) (ops : lis
                                                  spec_apply_to_container ss lg di tg (Some o))) all_targets)
                      (seq 0 (length scopes))) univ,
    map (fun e => (e_disp e, e_name e, e_fn e, entry_current ss e)) lg).
+
+(* ====================================================================================== *)
+(* evaluation sequences: one filter set object asked about the operations of SEVERAL schemas *)
+(* ====================================================================================== *)
+(* A label (METHOD path) identifies an operation inside ONE schema only.  The filter set of a global hook or of a
+   global auth provider is asked about the operations of every loaded schema, in whatever order the tests run, again
+   and again.  FilterSet.match (filters.py:157) reads the operation it is given and nothing else: it keeps no state
+   between two calls.  To be able to SAY that, evaluation is written as a state machine over an explicit memory
+   (memo: filter set object, label -> verdict) and a matcher implementation that may read and write it:
+     match_plain    the code as it is: computes from the operation, never touches the memory
+     match_cached   regression sentinel (seed C19_d): the verdict is remembered per (filter set object, operation label) *)
+Definition memo := list (nat * str * bool).
+Definition matchfn := memo -> nat -> fset -> oper -> bool * memo.
+
+Definition match_plain : matchfn := fun m _ fs o => (fset_match fs o, m).
+
+Fixpoint memo_get (c : nat) (l : str) (m : memo) : option bool :=
+  match m with
+  | [] => None
+  | (c', l', v) :: m' => if Nat.eqb c c' && str_eqb l l' then Some v else memo_get c l m'
+  end.
+
+Definition match_cached : matchfn := fun m c fs o =>
+  match memo_get c (o_label o) m with
+  | Some v => (v, m)
+  | None => let v := fset_match fs o in (v, (c, o_label o, v) :: m)
+  end.
+
+(* the sentinel clears the memory of a filter set at the end of _add_filter *)
+Definition memo_drop (c : nat) (m : memo) : memo := filter (fun e => negb (Nat.eqb c (fst (fst e)))) m.
+
+(* _should_skip_hook through a matcher implementation; the key of the memory is the heap cell of the filter set *)
+Definition should_skip_m (mm : matchfn) (st : state) (m : memo) (f : N) (ctx : option oper) : bool * memo :=
+  match lookup f (fattr st), ctx with
+  | Some c, Some o => let '(v, m') := mm m c (hp (heap st) c) o in (negb v, m')
+  | _, _ => (false, m)
+  end.
+
+(* one loop `for hook in get_all_by_name(..): if _should_skip_hook(..): continue`, hooks asked in order *)
+Fixpoint fired_m (mm : matchfn) (st : state) (m : memo) (ctx : option oper) (fs : list N) : list N * memo :=
+  match fs with
+  | [] => ([], m)
+  | f :: fs' =>
+      let '(sk, m1) := should_skip_m mm st m f ctx in
+      let '(r, m2) := fired_m mm st m1 ctx fs' in
+      (if sk then r else f :: r, m2)
+  end.
+
+(* HookDispatcher.apply_to_container: the four loops *)
+Fixpoint container_m (mm : matchfn) (st : state) (m : memo) (di : nat) (t : target) (ctx : option oper) (ks : list hk)
+  : list (hk * N) * memo :=
+  match ks with
+  | [] => ([], m)
+  | k :: ks' =>
+      let '(r1, m1) := fired_m mm st m ctx (all_by_name st di (NGen k t)) in
+      let '(r2, m2) := container_m mm st m1 di t ctx ks' in
+      (map (fun f => (k, f)) r1 ++ r2, m2)
+  end.
+
+(* apply_to_all_dispatchers / as_strategy._apply_hooks: global, schema, test *)
+Definition apply_to_all_m (mm : matchfn) (st : state) (m : memo) (g s : nat) (t : option nat) (c : target) (ctx : option oper)
+  : list (hk * N) * memo :=
+  let '(r1, m1) := container_m mm st m g c ctx kinds in
+  let '(r2, m2) := container_m mm st m1 s c ctx kinds in
+  match t with
+  | Some ti => let '(r3, m3) := container_m mm st m2 ti c ctx kinds in (r1 ++ r2 ++ r3, m3)
+  | None => (r1 ++ r2 ++ [], m2)
+  end.
+
+(* one generation for operation o: every target in turn *)
+Fixpoint generation_m (mm : matchfn) (st : state) (m : memo) (g s : nat) (t : option nat) (o : oper) (cs : list target)
+  : list (list (hk * N)) * memo :=
+  match cs with
+  | [] => ([], m)
+  | c :: cs' =>
+      let '(r, m1) := apply_to_all_m mm st m g s t c (Some o) in
+      let '(rs, m2) := generation_m mm st m1 g s t o cs' in
+      (r :: rs, m2)
+  end.
+
+(* QEval s t o: operation o, which belongs to the schema whose dispatcher is number s, is generated (test dispatcher t);
+   the global dispatcher is number 0.  Operations of different schemas may carry the same label. *)
+Inductive qevent := QOp (o : op) | QEval (s : nat) (t : option nat) (o : oper).
+
+Definition memo_after_op (st : state) (o : op) (out : outcome) (m : memo) : memo :=
+  match out, o with
+  | Done, OFilter ri _ _ => match nth_error (regs st) ri with Some r => memo_drop (r_proxy r) m | None => m end
+  | Done, ODecFilter di _ _ => match nth_error (decs st) di with Some d => memo_drop (d_proxy d) m | None => m end
+  | _, _ => m
+  end.
+
+(* for every QEval of the sequence, in order: the hooks applied, per target *)
+Fixpoint eval_trace (mm : matchfn) (st : state) (m : memo) (evs : list qevent) : list (list (list (hk * N))) :=
+  match evs with
+  | [] => []
+  | QOp o :: evs' => let '(st', out) := step st o in eval_trace mm st' (memo_after_op st o out m) evs'
+  | QEval s t o :: evs' =>
+      let '(r, m') := generation_m mm st m 0 s t o all_targets in
+      r :: eval_trace mm st m' evs'
+  end.
+
+Fixpoint qops_of (evs : list qevent) : list op :=
+  match evs with
+  | [] => []
+  | QOp o :: evs' => o :: qops_of evs'
+  | QEval _ _ _ :: evs' => qops_of evs'
+  end.
+
+Fixpoint count_evals (evs : list qevent) : nat :=
+  match evs with
+  | [] => 0
+  | QOp _ :: evs' => count_evals evs'
+  | QEval _ _ _ :: evs' => S (count_evals evs')
+  end.
+
+(* ---------- the same for auth providers (the key of the memory is the wrapper number) ---------- *)
+(* SelectiveAuthProvider.get *)
+Definition provider_supplies_m (mm : matchfn) (sets : list fset) (m : memo) (p : provider) (o : oper) : bool * memo :=
+  match p with
+  | PPlain _ => (true, m)
+  | PSelective _ w => mm m w (hp sets w) o
+  end.
+
+(* AuthStorage.set: the providers are asked in order until one supplies data *)
+Fixpoint find_supplier_m (mm : matchfn) (sets : list fset) (m : memo) (ps : list provider) (o : oper) : option provider * memo :=
+  match ps with
+  | [] => (None, m)
+  | p :: ps' =>
+      let '(v, m1) := provider_supplies_m mm sets m p o in
+      if v then (Some p, m1) else find_supplier_m mm sets m1 ps' o
+  end.
+
+Definition storage_set_m (mm : matchfn) (sets : list fset) (m : memo) (ps : list provider) (o : oper) : auth_result * memo :=
+  match ps with
+  | [] => (AuthRaises, m)
+  | _ => let '(r, m') := find_supplier_m mm sets m ps o in
+         (match r with Some p => AuthBy (provider_cls p) | None => AuthNone end, m')
+  end.
+
+Definition set_on_case_m (mm : matchfn) (st : astate) (m : memo) (test : option N) (schema_storage : nat) (o : oper)
+  : auth_result * memo :=
+  let stor i := nth i (a_storages st) [] in
+  match match test with Some t => lookup t (a_marks st) | None => None end with
+  | Some ti => storage_set_m mm (a_sets st) m (stor ti) o
+  | None =>
+      match stor schema_storage with
+      | _ :: _ => storage_set_m mm (a_sets st) m (stor schema_storage) o
+      | [] => match stor 0%nat with
+              | _ :: _ => storage_set_m mm (a_sets st) m (stor 0%nat) o
+              | [] => (AuthNone, m)
+              end
+      end
+  end.
+
+(* AQEval test s o: auth is set on a case of operation o, which belongs to the schema whose storage is number s *)
+Inductive aqevent := AQOp (o : aop) | AQEval (test : option N) (schema_storage : nat) (o : oper).
+
+Definition amemo_after_op (o : aop) (out : outcome) (m : memo) : memo :=
+  match out, o with
+  | Done, AFilter w _ _ => memo_drop w m
+  | _, _ => m
+  end.
+
+Fixpoint auth_trace (mm : matchfn) (st : astate) (m : memo) (evs : list aqevent) : list auth_result :=
+  match evs with
+  | [] => []
+  | AQOp o :: evs' => let '(st', out) := astep st o in auth_trace mm st' (amemo_after_op o out m) evs'
+  | AQEval t s o :: evs' => let '(r, m') := set_on_case_m mm st m t s o in r :: auth_trace mm st m' evs'
+  end.
+
+Fixpoint aqops_of (evs : list aqevent) : list aop :=
+  match evs with
+  | [] => []
+  | AQOp o :: evs' => o :: aqops_of evs'
+  | AQEval _ _ _ :: evs' => aqops_of evs'
+  end.
+
+Fixpoint count_aevals (evs : list aqevent) : nat :=
+  match evs with
+  | [] => 0
+  | AQOp _ :: evs' => count_aevals evs'
+  | AQEval _ _ _ :: evs' => S (count_aevals evs')
+  end.
+
+(* ---------- region of the sentinel: inside it the label-keyed memory cannot be told from the code ---------- *)
+Definition opt_strs_eqb (a b : option (list str)) : bool :=
+  match a, b with Some x, Some y => strs_eqb x y | None, None => true | _, _ => false end.
+Definition opt_str_eqb (a b : option str) : bool :=
+  match a, b with Some x, Some y => str_eqb x y | None, None => true | _, _ => false end.
+Definition oper_eqb (a b : oper) : bool :=
+  N.eqb (o_idx a) (o_idx b) && str_eqb (o_label a) (o_label b) && str_eqb (o_method a) (o_method b)
+  && str_eqb (o_path a) (o_path b) && opt_strs_eqb (o_tags a) (o_tags b) && opt_str_eqb (o_opid a) (o_opid b).
+
+(* the label determines the operation among those evaluated (what holds when every operation comes from one schema) *)
+Definition labels_determine (os : list oper) : bool :=
+  forallb (fun a => forallb (fun b => implb (str_eqb (o_label a) (o_label b)) (oper_eqb a b)) os) os.
+
+Definition eval_opers (evs : list qevent) : list oper :=
+  flat_map (fun e => match e with QEval _ _ o => [o] | QOp _ => [] end) evs.
+
+(* what the stage multi_schema_evaluation compares: the code as it is and the sentinel *)
+Definition eval_observe (scopes : list scope) (closures : list nat) (evs : list qevent) :=
+  (eval_trace match_plain (init scopes closures) [] evs, eval_trace match_cached (init scopes closures) [] evs).
+
+Definition auth_eval_observe (n : nat) (evs : list aqevent) :=
+  (auth_trace match_plain (ainit n) [] evs, auth_trace match_cached (ainit n) [] evs).
